@@ -365,7 +365,7 @@ pub struct EntriesIter {
     iters: Vec<EntryIter>,
 
     // Stack of deferred directories to return after their contents
-    deferred: Vec<VfsEntry>,
+    deferred: Vec<Option<VfsEntry>>,
 
     // Optional filter that yields only entries that match the predicate
     #[allow(clippy::type_complexity)]
@@ -412,25 +412,25 @@ impl EntriesIter {
             }
         }
 
-        // Return None if min depth marker is not satisfied
-        if depth < self.opts.min_depth {
-            return None;
-        }
-
-        // Defer directories as directed
-        if entry.is_dir() && self.opts.contents_first {
-            self.deferred.push(entry);
-            return None;
-        }
-
-        // Filter as directed
-        if let Some(filter) = &mut self.filter {
-            if !(filter)(&entry) {
-                return None;
+        // Yield only entries that satisfy the min depth marker and the filter
+        let mut keep = depth >= self.opts.min_depth;
+        if keep {
+            if let Some(filter) = &mut self.filter {
+                keep = (filter)(&entry);
             }
         }
 
-        Some(Ok(entry))
+        // Defer directories being traversed until after their contents as directed
+        if self.opts.contents_first && self.iters.len() > depth {
+            self.deferred.push(if keep { Some(entry) } else { None });
+            return None;
+        }
+
+        if keep {
+            Some(Ok(entry))
+        } else {
+            None
+        }
     }
 
     /// Filter on entries such that only entries that match the given predicate are returned
@@ -479,7 +479,7 @@ impl Iterator for EntriesIter {
         while !self.iters.is_empty() {
             // Return deferred directories if we've already processed their children
             if self.opts.contents_first && self.iters.len() < self.deferred.len() {
-                if let Some(entry) = self.deferred.pop() {
+                if let Some(Some(entry)) = self.deferred.pop() {
                     return Some(Ok(entry));
                 }
             }
@@ -504,7 +504,7 @@ impl Iterator for EntriesIter {
 
         // Return root directory for deferred case
         if self.opts.contents_first && self.iters.len() < self.deferred.len() {
-            if let Some(entry) = self.deferred.pop() {
+            if let Some(Some(entry)) = self.deferred.pop() {
                 return Some(Ok(entry));
             }
         }
